@@ -156,8 +156,81 @@ def lemma_composition(U):
     U.assume_note("composition: induction over the controller iterations with these steps (ghost bookkeeping of the served set is meta-level); frames = floor(T/D)+1 for whole-step ranges follows")
 
 
+def adaptive_controller_unit(U):
+    """clause 'exactly at the scheduled time for adaptive steppers' on the real Controller._run_main_process: the solver is
+    adaptive (info['dt_adaptive'] True, info['dt'] = the current adaptive step, arbitrary after every stepper call) and its
+    stepper ends exactly at the time it is given (C06 loop contract).  A tracker is served by handle(state, t, atol) when
+    t > t_scheduled - atol (handle unit above), so it is served at its scheduled time only if atol does not exceed the
+    tolerance within which the controller itself regards a time as reached (its own loop condition): obligation on
+    every call of handle inside the loop -- the half-step tolerance of fixed steppers is not allowed here."""
+    from ..interp import LoopSpec
+
+    def body(it):
+        ctx = it.ctx
+        t0, t1 = z3.Real("t_start"), z3.Real("t_end")
+        ctx.assume(t1 > t0)
+        dt0 = z3.Real("adaptive_dt_at_start")
+        ctx.assume(dt0 > 0)
+        solver_info = {"dt": dt0, "steps": z3.IntVal(0), "dt_adaptive": True}
+        ghost = {"handle_calls": [], "satol": None, "in_loop": False}
+        state_obj = Instance(None, {}, name="state")
+
+        def handle(st, t, atol=None):
+            ghost["handle_calls"].append((to_z3(to_real(t)), to_z3(to_real(atol)), ghost["satol"], ghost["in_loop"]))
+            return z3.Real(fresh_name("t_next_action"))
+
+        def stepper(st, t, t_next):
+            d = z3.Real(fresh_name("adaptive_dt"))
+            ctx.assume_pc(d > 0)
+            solver_info["dt"] = d
+            return to_z3(to_real(t_next))  # C06: an adaptive stepper ends at the time it is given
+
+        trackers = Instance(None, {"initialize": lambda st, info=None: None, "handle": handle, "finalize": lambda info=None: None}, name="trackers")
+        solver = Instance(None, {"mpi_run": False, "info": solver_info, "make_stepper": lambda state=None, dt=None: stepper}, name="solver")
+        cls = it.module_attr(it.load_module("pde.solvers.controller"), "Controller")
+        info, diag = {}, {}
+        diag["controller"] = info
+        ctrl = Instance(cls, {"solver": solver, "trackers": trackers, "t_range": (t0, t1), "info": info, "diagnostics": diag,
+                              "_get_current_time": lambda: z3.Real(fresh_name("clock")), "_get_stop_handler": lambda: (lambda err, t: (Opaque("level"), Opaque("msg")))})
+
+        def inv(interp, fr):
+            sa, ta = to_z3(to_real(fr.locals["stepper_atol"])), to_z3(to_real(fr.locals["tracker_atol"]))
+            ghost["satol"], ghost["in_loop"] = sa, True
+            return z3.And(sa > 0, ta <= sa, z3.BoolVal(fr.locals.get("state") is state_obj))
+
+        def havoc(interp, fr):
+            fr.locals["t"] = z3.Real(fresh_name("t"))
+            fr.locals["stepper_atol"] = z3.Real(fresh_name("satol"))
+            fr.locals["tracker_atol"] = z3.Real(fresh_name("tatol"))
+            fr.locals["t_next_action"] = Opaque("t_next_action of an earlier iteration")
+            solver_info["dt"] = z3.Real(fresh_name("adaptive_dt"))
+            ctx.assume_pc(to_z3(solver_info["dt"]) > 0)
+
+        it.loop_specs[("Controller._run_main_process", 1)] = LoopSpec(inv, havoc, "controller.adaptive_loop")
+        it.call(it.getattr(ctrl, "_run_main_process"), [state_obj, None], {})
+        return ghost
+
+    n = 0
+    for p, res in enumerate(explore_paths(U, body, max_paths=200)):
+        P = prem_of(res.ctx)
+        nm = f"controller[adaptive].path{p}"
+        if res.outcome == "cut":
+            continue
+        if res.outcome != "return":
+            U.prove(f"{nm}.returns_normally", P, z3.BoolVal(False), info={"exc": str(res.exc)})
+            continue
+        n += 1
+        for k, (t, atol, satol, in_loop) in enumerate(res.value["handle_calls"]):
+            if satol is None:
+                continue
+            U.prove(f"{nm}.handle{k}.tracker_tolerance_within_the_controller's_own_time_tolerance", P, atol <= satol,
+                    info={"replay_payload": {"adaptive_two_trackers": True}})
+    U.prove("controller[adaptive].has_return_paths", [], z3.BoolVal(n >= 1))
+    U.assume_note("adaptive stepper contract (C06): returns the time it was given; info['dt'] is an arbitrary positive number afterwards; loop invariant: tracker_atol <= stepper_atol")
+
+
 UNITS = [("TrackerCollection.handle", handle_unit), ("TrackerCollection.initialize_finalize", init_final_unit),
-         ("controller.stop_paths", controller_stop_unit), ("lemma.composition_arithmetic", lemma_composition)]
+         ("controller.stop_paths", controller_stop_unit), ("controller.adaptive_exact_times", adaptive_controller_unit), ("lemma.composition_arithmetic", lemma_composition)]
 
 
 def _adaptive_units():
@@ -171,6 +244,10 @@ def _adaptive_units():
 
 
 UNITS += _adaptive_units()
+# clause 'genuine simulation times (t_start + n*dt, with the state after n steps)': the time a fixed stepper returns -- which
+# the controller hands to the trackers -- is t + steps*dt for the steps it performed: the C06 loop contracts of the fixed
+# steppers and of the Adams-Bashforth steppers (python and numba), re-checked here
+UNITS += C07._stepper_units()
 
 
 def bounded(tier, seed):
@@ -179,7 +256,7 @@ def bounded(tier, seed):
     res = native("trackers.py", {"seed": seed, "n": 12 if tier == "quick" else 120}, timeout=3000)
     if not res.get("ok"):
         raise RuntimeError(f"native driver failed: {res}")
-    return [{"name": "frames_and_stops_in_real_runs", "bound": "random (dt, range, interval D >= dt, extra trackers, stop time / stopping tracker position / exception type) instances on both backends",
+    return [{"name": "frames_and_stops_in_real_runs", "bound": "adaptive Euler / Runge-Kutta on both backends with two trackers of different intervals (each served at its own scheduled times); random (dt, range, interval D >= dt, extra trackers, stop time / stopping tracker position / exception type) instances on both backends",
              "cases": res["cases"], "failures": res["failures"]}]
 
 
